@@ -8,7 +8,7 @@
 From Coq Require Import Sorting.Sorted ZArith.
 From Stam Require Import Base.Tac Model.Offset Model.Store Model.StoreObs Spec.StoreSpec
      Proofs.StoreScan Proofs.StoreInv Proofs.StoreDataDef Proofs.StoreRemove Proofs.StoreData Proofs.StoreStable
-     Model.Compress Proofs.Compress Proofs.StoreSel Model.SubOrder Proofs.SubOrder.
+     Model.Compress Proofs.Compress Proofs.StoreSel Model.SubOrder Proofs.SubOrder Model.SubOrderArms Gen.SubOrderTable Proofs.AgreeSubOrder.
 From Stam Require Model.Validate Proofs.ValidateProtect.
 
 (* every reverse index of every reachable store is exact *)
@@ -71,6 +71,16 @@ Theorem C01_subselector_order_is_total : forall s a b c,
   /\ (leaf_cmp s a b = Eq <-> leaf_sortkey s a = leaf_sortkey s b).
 Proof.
   intros s a b c. split; [apply leaf_cmp_key|]. split; [apply leaf_cmp_antisym|]. split; [apply leaf_cmp_trans|apply leaf_cmp_eq].
+Qed.
+
+(* ... and that comparator is the one the source contains now: [arms] is regenerated from the
+   match arms of src/annotationstore.rs on every run (tools/translate_suborder.py) *)
+Theorem C01_code_comparator_is_total : forall s a b c,
+  interp arms s a b = leaf_cmp s a b
+  /\ interp arms s b a = CompOpp (interp arms s a b)
+  /\ (interp arms s a b <> Gt -> interp arms s b c <> Gt -> interp arms s a c <> Gt).
+Proof.
+  intros s a b c. destruct (code_comparator_is_total s a b c) as (_ & H2 & H3). split; [apply arms_agree|]. split; assumption.
 Qed.
 
 (* protect-text operations anywhere in the history (the operation of C18: it adds validation data
